@@ -336,11 +336,43 @@ func (rpc *RPC) LogValue() slog.Value {
 // split splits the given RPC If a sub RPC is too large and can't be split
 // further (e.g. Message data is bigger than the RPC limit), then it will be
 // returned as an oversized RPC. The caller should filter out oversized RPCs.
+// hasContent reports whether the RPC says anything. An RPC that holds nothing but an
+// empty control message, or control entries that list no message ID, has a size but
+// no content.
+func (rpc *RPC) hasContent() bool {
+	if len(rpc.Publish) > 0 || len(rpc.Subscriptions) > 0 || rpc.Partial != nil || rpc.TestExtension != nil {
+		return true
+	}
+	ctl := rpc.Control
+	if ctl == nil {
+		return false
+	}
+	if len(ctl.Graft) > 0 || len(ctl.Prune) > 0 || ctl.Extensions != nil {
+		return true
+	}
+	for _, ihave := range ctl.Ihave {
+		if len(ihave.MessageIDs) > 0 {
+			return true
+		}
+	}
+	for _, iwant := range ctl.Iwant {
+		if len(iwant.MessageIDs) > 0 {
+			return true
+		}
+	}
+	for _, idontwant := range ctl.Idontwant {
+		if len(idontwant.MessageIDs) > 0 {
+			return true
+		}
+	}
+	return false
+}
+
 func (rpc *RPC) split(limit int) iter.Seq[RPC] {
 	return func(yieldRPC func(RPC) bool) {
 		// never produce an empty RPC: the fragment in front of an element that
 		// cannot fit by itself is empty when nothing has been accumulated yet
-		yield := func(r RPC) bool { return r.Size() == 0 || yieldRPC(r) }
+		yield := func(r RPC) bool { return !r.hasContent() || yieldRPC(r) }
 
 		nextRPC := RPC{from: rpc.from}
 
